@@ -487,6 +487,11 @@ func checkC11(an *Analysis, add func(Violation)) {
 			if e.Hard {
 				continue // undecodable: discarded
 			}
+			if an.Sc.TZ != "" {
+				if loc := zones.Load(an.Sc.TZ); loc != nil {
+					relaxZone(loc, model.GetDevice, &e, d.Data)
+				}
+			}
 			x := exp{e: e, data: d.Data}
 			if e.Fail != 0 || d.T >= wake || serial == 0 { // a read at the very instant of the wake-up is a tie
 				x.optional = true
